@@ -123,6 +123,7 @@ fn c15_t_tileset_without_embedded_pixels() {
     buf[7] = 0;
     buf[32] = 0;
     buf[33] = 0;
+    kani::assume(rd16(&buf, 12) >= 1 && rd16(&buf, 14) >= 1);
     let ts = match crate::tileset::Tileset::<RawPixels>::parse_chunk(&buf, PixelFormat::Rgba) {
         Ok(t) => t,
         Err(_) => {
